@@ -72,6 +72,8 @@ PLANS = {
     "lines": [
         ("ub", "dbg", "S", (2, 300), (6, 1500)), ("ub", "asan", "S", (1, 150), (3, 600)),
     ],
+    # the deliver family on unbounded queues also issues shrink requests: judged for C20 (key "family@tag" runs family)
+    "deliver@c20": [("ub", "dbg", "S", (2, 250), (6, 1200)), ("ubL", "dbg", "F", (1, 60), (3, 250)), ("ub", "asan", "S", (1, 100), (3, 400))],
     "lifecycle": [
         ("ub", "dbg", "S", (3, 250), (8, 1200)), ("bb", "dbg", "S", (1, 250), (4, 1200)), ("bd", "dbg", "S", (1, 250), (3, 1200)),
         ("ub", "asan", "S", (2, 120), (4, 500)), ("ub", "asan", "F", (2, 40), (5, 160)), ("bb", "asan", "F", (1, 40), (3, 160)),
@@ -90,13 +92,13 @@ def jobs(exes, family, tier, seed, prop, plans=None):
     wd = core.workdir()
     for (queue, variant, mode, quick, thorough) in (plans or PLANS)[family]:
         procs, scen = quick if tier == "quick" else thorough
-        scen = scen * SCALE.get(family, 4)
+        scen = scen * SCALE.get(family.split("@")[0], 4)
         for p in range(procs):
             n += 1
             d = os.path.join(wd, "%s_%s_%d" % (family, prop, n))
             os.makedirs(d, exist_ok=True)
             js.append(core.Job(exes[("e2e_" + queue, variant)],
-                               ["--family", family, "--mode", mode, "--seed", seed * 10000 + n, "--scenarios", scen, "--dir", d],
+                               ["--family", family.split("@")[0], "--mode", mode, "--seed", seed * 10000 + n, "--scenarios", scen, "--dir", d],
                                variant=variant, timeout=(900 if tier == "quick" else 3600), tag="e2e.%s.%s.%s.%s" % (family, queue, mode, variant), prop=prop, cwd=d))
     return js
 
